@@ -536,7 +536,10 @@ Definition step (s : gstate) (e : event) : option gstate :=
   | RAddParts i ps v =>
       match get s i with
       | Some c =>
-          if slot_is c KParts SPicked && list_eqb ps (pend_parts c) && negb (is_niln ps) then
+          (* the request carries the pending partitions as they were when the handler built it, i.e. at
+             some moment after the task was picked: a send() that creates a batch for another new
+             partition before the request reaches the coordinator adds to the END of the pending list *)
+          if slot_is c KParts SPicked && list_eqb ps (firstn (length ps) (pend_parts c)) && negb (is_niln ps) then
             match v with
             | VApplied =>
                 if Nat.eqb (cep c) (eep en) && not_prep en
